@@ -142,6 +142,22 @@ def ob_search(ctx):
     ctx.require(And(s0 <= e0, e0 - s0 <= n), "more-than-one-turn")
     if linear:
         ctx.require(e0 <= n, "linear-match-wraps")
+    # the extent of the match and of every group is the one regular-expression semantics gives on the one-turn reading
+    # that starts at the reported position (greedy runs as long as possible, lazy runs as short as possible)
+    if isinstance(s0, int):
+        room = (n - s0) if linear else n
+        if isinstance(r, str):
+            import re as _re
+
+            ref = _re.compile(oracle_regex(pattern)).match(r[s0:] if linear else (r + r)[s0:s0 + n], 0, room)
+        else:
+            ref = OP.match(R[s0:] if linear else dd[s0:s0 + n], 0, room)
+        ctx.require(ref is not None, "no-regex-match-at-the-reported-start")
+        if ref is not None:
+            for g in range(0, OP.groups + 1):
+                a, b = m.span(g)
+                ra, rb = ref.span(g)
+                ctx.require(And(Eq(ival(a), ra + s0), Eq(ival(b), rb + s0)), "group%d-extent-differs-from-regex-semantics" % g)
     ctx.witness("wraps", e0 > n)
     ctx.witness("ends-at-len", Eq(e0, n))
     # groups: text == circular read of the span, spans nested in the match
